@@ -12,6 +12,8 @@ import (
 type Prop struct {
 	Run    func(r *ev.Run)
 	Replay func(path string) int
+	// SchedChild runs one schedule of the named fresh-process scenario in this (new) process.
+	SchedChild func(scenario, prefixJSON string)
 }
 
 var Registry = map[string]Prop{}
@@ -47,3 +49,4 @@ var oddStrings = []string{
 	"", " ", "\"", "\"\"", "'", "%", "%zz", "%2F", "%00", "%25", ";", "&", "=", "==", "#", "?", "+", "/", "//", "\\", ":", "::", "@",
 	"\x00", "\x7f", "\r\n", "\t", "\xff\xfe", "\u00fc", "a b", "a=b", "a;b", "a&b", "a\"b", "../..", "%c0%af", "{}", "[]", "null", "0", "-1",
 }
+
